@@ -98,6 +98,18 @@ impl RunCtx {
     }
 }
 
+/// Process-wide depth switch: set once before the first run (from the tier of
+/// a batch, or from the `tier` recorded in a replay file). In the thorough
+/// tier scenarios may draw larger bounds (more operations, bigger graphs,
+/// longer inputs); the draw sequence of a run is a function of (choices, deep).
+static DEEP: std::sync::atomic::AtomicBool = std::sync::atomic::AtomicBool::new(false);
+pub fn set_deep(d: bool) {
+    DEEP.store(d, Ordering::SeqCst);
+}
+pub fn deep() -> bool {
+    DEEP.load(Ordering::Relaxed)
+}
+
 pub struct Budget {
     pub runs: u64,
     pub max_secs: f64,
@@ -270,12 +282,15 @@ impl Agg {
 
 pub struct Known {
     pub findings: Vec<(String, String, String)>, // property, key, what
+    /// Recorded history of a finding: (property, key, choices, thorough tier).
+    pub histories: Vec<(String, String, Vec<u64>, bool)>,
 }
 
 impl Known {
     pub fn load() -> Self {
         let path = verif_dir().join("known_findings.json");
         let mut findings = Vec::new();
+        let mut histories = Vec::new();
         if let Ok(s) = std::fs::read_to_string(&path) {
             let v: Value = match serde_json::from_str(&s) {
                 Ok(v) => v,
@@ -291,10 +306,18 @@ impl Known {
                         f["key"].as_str().unwrap_or("").to_string(),
                         f["what"].as_str().unwrap_or("").to_string(),
                     ));
+                    if let Some(c) = f["history"]["choices"].as_array() {
+                        histories.push((
+                            f["property"].as_str().unwrap_or("").to_string(),
+                            f["key"].as_str().unwrap_or("").to_string(),
+                            c.iter().filter_map(|x| x.as_u64()).collect(),
+                            f["history"]["tier"].as_str() == Some("thorough"),
+                        ));
+                    }
                 }
             }
         }
-        Self { findings }
+        Self { findings, histories }
     }
     pub fn keys_for(&self, prop: &str) -> Vec<String> {
         self.findings
@@ -368,6 +391,7 @@ pub fn run_check(check: &dyn Check, tier: Tier, seed: u64, runs_override: Option
     let t0 = Instant::now();
     let known = Known::load();
     let known_keys = known.keys_for(check.id());
+    set_deep(tier == Tier::Thorough);
     let budget = check.budget(tier);
     let fixed = check.fixed_cases();
     let total_runs = runs_override.unwrap_or(budget.runs) + fixed;
@@ -397,6 +421,30 @@ pub fn run_check(check: &dyn Check, tier: Tier, seed: u64, runs_override: Option
     let stop = AtomicBool::new(false);
     let agg = Mutex::new(Agg::default());
     let max_viol: usize = std::env::var("VERIF_MAX_VIOL").ok().and_then(|s| s.parse().ok()).unwrap_or(3);
+    // The recorded history of each listed finding is run first, so that a
+    // listed finding is met (and reported) in every batch, whatever the seed.
+    for (p, key, choices, thorough) in &known.histories {
+        if p != check.id() {
+            continue;
+        }
+        set_deep(*thorough);
+        set_quiet(true);
+        let mut src = Src::from_choices(choices.clone());
+        let (ctx, r) = run_one(check, &mut src, false, &known_keys);
+        set_quiet(false);
+        let mut met = ctx.known_hits.iter().any(|(k, _)| k == key);
+        if let Err(v) = &r {
+            met |= v.key == *key;
+        }
+        let mut a = agg.lock().unwrap();
+        if met {
+            let msg = ctx.known_hits.iter().find(|(k, _)| k == key).map(|(_, m)| m.clone()).unwrap_or_default();
+            a.known_hits.entry(key.clone()).or_insert((0, msg)).0 += 1;
+        } else {
+            a.extra.insert(format!("known_history_not_reproduced:{key}"), json!(true));
+        }
+    }
+    set_deep(tier == Tier::Thorough);
     let survey = std::env::var("VERIF_SURVEY").is_ok();
     let nviol = AtomicU64::new(0);
     std::thread::scope(|sc| {
@@ -498,6 +546,15 @@ pub fn run_check(check: &dyn Check, tier: Tier, seed: u64, runs_override: Option
         if survey {
             println!("survey: run={} key={} :: {}", i, v.key, v.msg.replace('\n', " | "));
             continue;
+        }
+        if std::env::var("VERIF_KEEP_ORIG").is_ok() && *i != u64::MAX {
+            // Triage aid: the unminimised choice list, replayable as is.
+            let dir = verif_dir().join("replays");
+            let _ = std::fs::create_dir_all(&dir);
+            let path = dir.join(format!("{}-{}-{}.orig.json", check.id(), seed, i));
+            let doc = json!({"property": check.id(), "seed": seed, "run": i.to_string(), "key": v.key, "message": v.msg,
+                "choices": choices, "tier": if deep() { "thorough" } else { "quick" }});
+            let _ = std::fs::write(&path, serde_json::to_string(&doc).unwrap());
         }
         let (min_choices, min_v) = if *i == u64::MAX {
             (choices.clone(), v.clone())
@@ -662,6 +719,7 @@ fn write_replay(
         "key": v.key,
         "message": v.msg,
         "choices": choices,
+        "tier": if deep() { "thorough" } else { "quick" },
         "original_choice_count": orig_len,
         "scenario": ctx.sample,
         "trace": ctx.trace,
@@ -720,6 +778,7 @@ pub fn replay_file(checks: &[Box<dyn Check>], path: &str, quiet: bool) -> i32 {
         .map(|a| a.iter().filter_map(|x| x.as_u64()).collect())
         .unwrap_or_default();
     set_quiet(true);
+    set_deep(v["tier"].as_str() == Some("thorough"));
     let known = Known::load().keys_for(prop);
     let mut src = Src::from_choices(choices);
     let (ctx, r) = run_one(check.as_ref(), &mut src, !quiet, &known);
